@@ -18,6 +18,7 @@ import (
 	"flag"
 	"fmt"
 	"go/ast"
+	"go/parser"
 	"go/token"
 	"go/types"
 	"os"
@@ -38,6 +39,7 @@ type edit struct {
 
 func main() {
 	dir := flag.String("dir", "", "scratch copy root")
+	detSelect := flag.Bool("select", os.Getenv("VERIF_XFORM_SELECT") != "0", "rewrite multi-case select statements so that the simulator decides among ready cases")
 	flag.Parse()
 	if *dir == "" {
 		fmt.Fprintln(os.Stderr, "usage: xform -dir <copy>")
@@ -169,5 +171,236 @@ func main() {
 			}
 		}
 	}
-	fmt.Printf("xform: %d imports, %d go statements, %d map ranges, %d timer durations rewritten\n", nImp, nGo, nRange, nTimer)
+	nSel := 0
+	if *detSelect {
+		for _, p := range pkgs {
+			if strings.HasPrefix(p.PkgPath, modPath+"/internal/simrt") {
+				continue
+			}
+			for _, name := range p.GoFiles {
+				n, err := rewriteSelects(name)
+				if err != nil {
+					fmt.Fprintln(os.Stderr, "xform: select pass:", name, err)
+					os.Exit(2)
+				}
+				nSel += n
+			}
+		}
+	}
+	fmt.Printf("xform: %d imports, %d go statements, %d map ranges, %d timer durations, %d selects rewritten\n", nImp, nGo, nRange, nTimer, nSel)
 }
+
+// rewriteSelects is a purely syntactic second pass over an already transformed file.
+// Go picks at random among the ready cases of a select; the simulator cannot replay
+// that. Every select with two or more communication clauses
+//
+//	select {
+//	case <-a:          A
+//	case v, ok := <-b: B
+//	case c <- x:       C
+//	[default:          D]
+//	}
+//
+// becomes
+//
+//	{
+//		simrtSelN := -1
+//		simrtSelNc0 := a; simrtSelNc1 := b                      // channel operands and send values are
+//		simrtSelNc2 := c; simrtSelNx2 := simrt.SendVal(simrtSelNc2, x) // evaluated once, in source order
+//		var simrtSelNv1 = simrt.ElemZero(simrtSelNc1); var simrtSelNk1 bool
+//		for simrtSelNi, simrtSelNs := 0, simrt.SelStart(3); simrtSelNi < 3 && simrtSelN < 0; simrtSelNi++ {
+//			switch (simrtSelNs + simrtSelNi) % 3 {            // non-blocking probes in rotated order
+//			case 0: select { case <-simrtSelNc0: simrtSelN = 0; default: }
+//			case 1: select { case simrtSelNv1, simrtSelNk1 = <-simrtSelNc1: simrtSelN = 1; default: }
+//			case 2: select { case simrtSelNc2 <- simrtSelNx2: simrtSelN = 2; default: }
+//			}
+//		}
+//		if simrtSelN < 0 { select { ...all cases, blocking... } }   // omitted when there is a default
+//		switch simrtSelN {
+//		case 0: A
+//		case 1: v, ok := simrtSelNv1, simrtSelNk1; B
+//		case 2: C
+//		[default: D]
+//		}
+//	}
+//
+// The rotation start is drawn from the run's choice stream when the caller holds the run
+// token (0 on replay default = source order; source order also when it does not). When nothing is ready the goroutine blocks in one select over all cases: the
+// first channel that becomes ready completes it, which is deterministic.
+func rewriteSelects(name string) (int, error) {
+	src, err := os.ReadFile(name)
+	if err != nil {
+		return 0, err
+	}
+	fset := token.NewFileSet()
+	f, err := parser.ParseFile(fset, name, src, parser.ParseComments)
+	if err != nil {
+		return 0, err
+	}
+	off := func(pos token.Pos) int { return fset.Position(pos).Offset }
+	text := func(n ast.Node) string { return string(src[off(n.Pos()):off(n.End())]) }
+	labeled := map[*ast.SelectStmt]bool{}
+	ast.Inspect(f, func(n ast.Node) bool {
+		if ls, ok := n.(*ast.LabeledStmt); ok {
+			if st, ok := ls.Stmt.(*ast.SelectStmt); ok {
+				labeled[st] = true
+			}
+		}
+		return true
+	})
+	var edits []edit
+	count := 0
+	ast.Inspect(f, func(n ast.Node) bool {
+		st, ok := n.(*ast.SelectStmt)
+		if !ok || labeled[st] {
+			return true
+		}
+		type clause struct {
+			cc      *ast.CommClause
+			kind    int // 0 recv without assignment, 1 recv with assignment, 2 send
+			ch      string
+			val     string
+			lhs     []string
+			define  bool
+		}
+		var cls []clause
+		hasDefault := false
+		okAll := true
+		for _, c := range st.Body.List {
+			cc := c.(*ast.CommClause)
+			if cc.Comm == nil {
+				hasDefault = true
+				continue
+			}
+			cl := clause{cc: cc}
+			recvChan := func(e ast.Expr) (string, bool) {
+				for {
+					if pe, ok := e.(*ast.ParenExpr); ok {
+						e = pe.X
+						continue
+					}
+					break
+				}
+				ue, ok := e.(*ast.UnaryExpr)
+				if !ok || ue.Op != token.ARROW {
+					return "", false
+				}
+				return text(ue.X), true
+			}
+			switch cm := cc.Comm.(type) {
+			case *ast.ExprStmt:
+				ch, ok := recvChan(cm.X)
+				if !ok {
+					okAll = false
+				}
+				cl.kind, cl.ch = 0, ch
+			case *ast.AssignStmt:
+				if len(cm.Rhs) != 1 {
+					okAll = false
+					break
+				}
+				ch, ok := recvChan(cm.Rhs[0])
+				if !ok {
+					okAll = false
+				}
+				cl.kind, cl.ch = 1, ch
+				cl.define = cm.Tok == token.DEFINE
+				for _, l := range cm.Lhs {
+					cl.lhs = append(cl.lhs, text(l))
+				}
+			case *ast.SendStmt:
+				cl.kind, cl.ch, cl.val = 2, text(cm.Chan), text(cm.Value)
+			default:
+				okAll = false
+			}
+			cls = append(cls, cl)
+		}
+		if !okAll || len(cls) < 2 {
+			return true
+		}
+		count++
+		id := fmt.Sprintf("simrtSel%d", off(st.Pos()))
+		var b strings.Builder
+		fmt.Fprintf(&b, "{ %s := -1; ", id)
+		for i, cl := range cls {
+			fmt.Fprintf(&b, "%sc%d := %s; ", id, i, cl.ch)
+			if cl.kind == 2 {
+				fmt.Fprintf(&b, "%sx%d := simrt.SendVal(%sc%d, %s); ", id, i, id, i, cl.val)
+			}
+		}
+		for i, cl := range cls {
+			if cl.kind == 1 {
+				fmt.Fprintf(&b, "var %sv%d = simrt.ElemZero(%sc%d); var %sk%d bool; _ = %sk%d; ", id, i, id, i, id, i, id, i)
+			}
+		}
+		header := func(i int, cl clause) string {
+			switch cl.kind {
+			case 0:
+				return fmt.Sprintf("case <-%sc%d: %s = %d", id, i, id, i)
+			case 1:
+				return fmt.Sprintf("case %sv%d, %sk%d = <-%sc%d: %s = %d", id, i, id, i, id, i, id, i)
+			default:
+				return fmt.Sprintf("case %sc%d <- %sx%d: %s = %d", id, i, id, i, id, i)
+			}
+		}
+		nc := len(cls)
+		fmt.Fprintf(&b, "for %si, %ss := 0, simrt.SelStart(%d); %si < %d && %s < 0; %si++ { switch (%ss + %si) %% %d { ", id, id, nc, id, nc, id, id, id, id, nc)
+		for i, cl := range cls {
+			fmt.Fprintf(&b, "case %d: select { %s; default: }; ", i, header(i, cl))
+		}
+		b.WriteString("} }; ")
+		if !hasDefault {
+			fmt.Fprintf(&b, "if %s < 0 { select { ", id)
+			for i, cl := range cls {
+				b.WriteString(header(i, cl))
+				b.WriteString("; ")
+			}
+			b.WriteString("} }; ")
+		}
+		fmt.Fprintf(&b, "switch %s {", id)
+		edits = append(edits, edit{off(st.Pos()), off(st.Body.Lbrace) + 1 - off(st.Pos()), b.String()})
+		i := 0
+		for _, c := range st.Body.List {
+			cc := c.(*ast.CommClause)
+			if cc.Comm == nil {
+				continue // "default:" stays
+			}
+			cl := cls[i]
+			h := fmt.Sprintf("case %d:", i)
+			if cl.kind == 1 {
+				op := "="
+				if cl.define {
+					op = ":="
+				}
+				if len(cl.lhs) == 1 {
+					h += fmt.Sprintf(" %s %s %sv%d;", cl.lhs[0], op, id, i)
+				} else {
+					h += fmt.Sprintf(" %s, %s %s %sv%d, %sk%d;", cl.lhs[0], cl.lhs[1], op, id, i, id, i)
+				}
+			}
+			edits = append(edits, edit{off(cc.Pos()), off(cc.Colon) + 1 - off(cc.Pos()), h})
+			i++
+		}
+		edits = append(edits, edit{off(st.End()), 0, " }"})
+		return true
+	})
+	if count == 0 {
+		return 0, nil
+	}
+	hasRT := false
+	for _, imp := range f.Imports {
+		if imp.Name != nil && imp.Name.Name == "simrt" {
+			hasRT = true
+		}
+	}
+	if !hasRT {
+		edits = append(edits, edit{off(f.Name.End()), 0, "\n\nimport simrt \"" + modPath + "/internal/simrt\"\n"})
+	}
+	sort.SliceStable(edits, func(i, j int) bool { return edits[i].off > edits[j].off })
+	out := src
+	for _, e := range edits {
+		out = append(out[:e.off:e.off], append([]byte(e.text), out[e.off+e.del:]...)...)
+	}
+	return count, os.WriteFile(name, out, 0o644)
+}
+
